@@ -12,6 +12,7 @@ import numpy as np
 import common
 import corpus
 import execcorr
+import optcorr
 import ffx
 import inputs
 import p_c16
@@ -296,6 +297,22 @@ def run(v, tier, seed, g):
                 os.remove(path[:-2] + ext)
             except OSError:
                 pass
+    # ---- the optimiser MODEL (Opt.v) against optimizer.py: every captured optimize() call, node by node --------
+    oc = optcorr.run(kc + [c for c in corpus.PINNED if c not in kc] + corpus.random_cases(seed + 2, 10 if tier == "quick" else 150), "C17m")
+    v.oblige(oc["matched"] == oc["calls"] and not oc["errors"] and oc["calls"] > 0, max(oc["calls"], 1))
+    for e in oc["errors"][:3]:
+        v.violation(f"optimizer-model-harness:{e[0]}", f"the optimiser correspondence could not be evaluated: {e[1]}", {"error": e}, no_input=True)
+    opt_viol = {x[1] for x in v.violations if "optimi" in x[1]}
+    for mm in oc["mismatches"][:5]:
+        # the model (whose structural theorems are props/C17.v) no longer describes optimizer.py on this call; a
+        # concrete failing input is what the on/off comparison above reports for the same case, if there is one
+        cid = mm["case"]
+        if any(cid in t for t in opt_viol):
+            continue
+        v.violation(f"optimizer-model:{cid}", f"optimizer.optimize returns a different tree than the model Opt.optimize on call {mm['call']} of case {cid}; "
+                    "the kernels with the passes on and off were compared and no differing tensor was found",
+                    {"case": cid, "call": mm["call"], "broken_obligation": "correspondence Opt.optimize = optimizer.optimize (harness/optcorr.py)"}, no_input=True)
+    v.notes["optimizer_model"] = {k: oc[k] for k in ("cases", "calls", "matched", "changed", "unsupported", "kinds")}
     # ---- LN.exec itself against gcc (ties the semantics every AST theorem rests on) ------------
     xc = execcorr.run(corpus.PINNED + corpus.random_cases(seed + 1, 10 if tier == "quick" else 200), "C17x", seed)
     v.oblige(xc["agree"] == xc["compared"], max(xc["compared"], 1))
@@ -311,12 +328,12 @@ def run(v, tier, seed, g):
         "checker_cmd": f"./check C17 --tier {tier}",
         "trusted_base": ["Coq kernel + VM", "tr_smart.py (translation of LExpr.__neg__..__rdiv__, is_*_lexpr, float_product)",
                          "exact arithmetic (commutative ring under of_Z): IEEE corner cases 0*inf, -0, 0/0 excluded",
-                         "optimiser passes: per kernel pair (passes on/off) proved equivalent for all inputs by symbolic execution + polynomial normal forms (Sym.v, SymEq.v: Ring_polynom over Z, atoms compared syntactically); kernels with conditionals fall back to exact rational execution on random inputs"],
+                         "optimiser model Opt.v: hand-written, tied to optimizer.py by node-by-node comparison of Opt.optimize with the real result on every optimize() call of the compiled cases (optcorr.py; exporter ffx.conv_items)", "optimiser passes: per kernel pair (passes on/off) proved equivalent for all inputs by symbolic execution + polynomial normal forms (Sym.v, SymEq.v: Ring_polynom over Z, atoms compared syntactically); kernels with conditionals fall back to exact rational execution on random inputs"],
         "evaluations": len(allc) + len(files) + xc["compared"], "distinct_nontrivial": len(allc),
         "rule": "overloads: every operand kind pair (%d kinds) x 8 binary overloads + neg + float_product lists; optimiser: kernels on/off; exec vs gcc" % len(ops),
         "axioms_under_property_theorems": g.get("axioms", []),
     }
-    return v.finish("proof", cov, ["optimiser half: proved per sampled kernel pair, not for the passes as functions on all ASTs; kernels with conditionals only by execution"])
+    return v.finish("proof", cov, ["optimiser half: structural/algebraic facts proved for all code lists over the model Opt.v; preservation of the tensor proved per sampled kernel pair, not for the passes as functions on all ASTs; kernels with conditionals only by execution"])
 
 
 def con_of(k):
